@@ -744,23 +744,29 @@ DFANIlocate(int32 file_id, int type, uint16 tag, uint16 ref)
 
     /* if no directory for this type of annotation, make one */
     if (DFANdir[type] == NULL) {
+        DFANdirhead *dir; /* the new directory: installed only once it is complete */
+
         nanns = Hnumber(file_id, anntag);
-        if (nanns == 0)
+        if (nanns <= 0) /* none, or the descriptor list cannot be searched */
             HGOTO_ERROR(DFE_INTERNAL, 0);
 
         /* allocate directory space, and space for entries. */
-        DFANdir[type] = (DFANdirhead *)malloc((uint32)sizeof(DFANdirhead));
-        if (DFANdir[type] == NULL)
+        dir = (DFANdirhead *)malloc((uint32)sizeof(DFANdirhead));
+        if (dir == NULL)
             HGOTO_ERROR(DFE_NOSPACE, 0);
-        DFANdir[type]->entries = (DFANdirentry *)malloc((size_t)nanns * sizeof(DFANdirentry));
-        if (DFANdir[type]->entries == NULL)
+        dir->entries = (DFANdirentry *)calloc((size_t)nanns, sizeof(DFANdirentry));
+        if (dir->entries == NULL) {
+            free(dir);
             HGOTO_ERROR(DFE_NOSPACE, 0);
+        }
 
-        DFANdir[type]->next     = NULL;
-        DFANdir[type]->nentries = nanns;
+        dir->next     = NULL;
+        dir->nentries = nanns;
 
         /* fill directory table */
         if ((aid = Hstartread(file_id, anntag, DFREF_WILDCARD)) == FAIL) {
+            free(dir->entries);
+            free(dir);
             HGOTO_ERROR(DFE_BADAID, 0);
         } /* end if */
         else
@@ -768,21 +774,24 @@ DFANIlocate(int32 file_id, int type, uint16 tag, uint16 ref)
 
         for (i = 0; (i < nanns) && (more_anns != FAIL); i++) {
             if (FAIL == Hinquire(aid, (int32 *)NULL, (uint16 *)NULL, &annref, (int32 *)NULL, (int32 *)NULL,
-                                 (int32 *)NULL, (int16 *)NULL, (int16 *)NULL))
-                HGOTO_ERROR(DFE_INTERNAL, 0);
-
-            if ((int32)FAIL == Hread(aid, (int32)4, datadi))
+                                 (int32 *)NULL, (int16 *)NULL, (int16 *)NULL) ||
+                (int32)FAIL == Hread(aid, (int32)4, datadi)) {
+                Hendaccess(aid);
+                free(dir->entries);
+                free(dir);
                 HGOTO_ERROR(DFE_READERROR, 0);
+            }
 
             /* get data tag/ref */
-            DFANdir[type]->entries[i].annref = annref;
-            ptr                              = (uint8 *)&(datadi[0]);
-            UINT16DECODE(ptr, DFANdir[type]->entries[i].datatag);
-            UINT16DECODE(ptr, DFANdir[type]->entries[i].dataref);
+            dir->entries[i].annref = annref;
+            ptr                    = (uint8 *)&(datadi[0]);
+            UINT16DECODE(ptr, dir->entries[i].datatag);
+            UINT16DECODE(ptr, dir->entries[i].dataref);
 
             more_anns = Hnextread(aid, anntag, DFREF_WILDCARD, DF_CURRENT);
         }
         Hendaccess(aid);
+        DFANdir[type] = dir;
     }
 
     if (!tag)
